@@ -1,5 +1,5 @@
 """What is claimed per property (feeds MANIFEST.json via tools/mkmanifest.py)."""
-HOOK_COMMITS = ["56a64ef", "eb21cc7", "7f35f13", "aa6222d"]
+HOOK_COMMITS = ["56a64ef", "eb21cc7", "7f35f13", "aa6222d", "b70ad5b"]
 ENGINES = [
     {"name": "kreal", "path": "/verif/engines/kreal",
      "serves_properties": ["C01", "C02", "C05", "C06", "C07", "C09", "C10", "C12", "C13", "C14", "C15", "C16", "C17", "C19"],
